@@ -2,7 +2,6 @@ package main
 
 import "errors"
 
-func driveClient(w *writer) error { return errors.New("not built yet") }
 func driveMutex(w *writer) error  { return errors.New("not built yet") }
 func driveStream(w *writer) error { return errors.New("not built yet") }
 func driveLife(w *writer) error   { return errors.New("not built yet") }
